@@ -36,6 +36,13 @@ def uri_grammar(quick):
     return uniq
 
 
+def authority_grammar():
+    """URIs that differ in the parts of the authority (host case, port, userinfo, IPv6 literal, empty port)."""
+    auths = ['', '//a.b', '//A.B', '//a.b:8080', '//a.b:9090', '//A.B:8080', '//u@a.b', '//v@a.b', '//u@a.b:8080', '//[::1]:80',
+             '//[::1]:81', '//a.b:']
+    return [f'{s}:{a}{p}' for s in ('http', 'sdc.ctxt.loc') for a in auths for p in ('', '/x', '/x/y')]
+
+
 def ref_match(probe_scope, service_scope, rule):
     """Reference from the property text: scheme/authority case-insensitive, path segment-wise prefix after
     percent-decoding (raw split on '/'), query ignored; strcmp: exact string equality."""
@@ -447,6 +454,9 @@ def run(ctx):
     pick = uris if not ctx.quick else uris[::3]
     n = max(1, len(pick) // 64)
     ctx.pmap(_match_chunk, [(pick[i:i + n], uris) for i in range(0, len(pick), n)], chunksize=1)
+    au = authority_grammar()
+    ctx.note('authority_grammar', len(au))
+    ctx.pmap(_match_chunk, [(au[i:i + 6], au) for i in range(0, len(au), 6)], chunksize=1)
     _filters(ctx)
     evs = alphabet(ctx.quick)
     depth = 3
